@@ -43,6 +43,7 @@ class TRec:
         "prio",
         "ident",
         "daemon",
+        "last_run",
     )
 
     def __init__(self, tid, name, kind):
@@ -51,6 +52,7 @@ class TRec:
         self.kind = kind
         self.baton = _thread.allocate_lock()
         self.baton.acquire()
+        self.last_run = -1
         self.done = False
         self.pred = None
         self.deadline = None
@@ -72,6 +74,12 @@ class Kernel:
         self.starve_until = int(knobs.get("starve_until", 30000))  # starvation is long, not eternal
         self.pct_points = set(knobs.get("pct_points", ()))
         self.max_steps = int(knobs.get("max_steps", 300_000))
+        # the step budget is a livelock detector, not a cost limit: while bytes still move through simulated pipes or
+        # threads / processes still finish, exceeding it only extends it (bounded), see _advance()
+        self.progress = 0
+        self._progress_mark = -1
+        self._step_quantum = self.max_steps
+        self._extensions = 0
         self.max_time = float(knobs.get("max_time", 120.0))
         self.clock_seed = int(knobs.get("clock_seed", seed)) & 0xFFFFFFFF
         self.tick = bool(knobs.get("tick", True))
@@ -161,7 +169,13 @@ class Kernel:
         if self.tick:
             self.now += _DELTAS[(((self.d ^ self.clock_seed) * 0x9E3779B1) >> 13) & 3]
         if self.d > self.max_steps:
-            self.abort("hang", f"step budget {self.max_steps} exceeded")
+            if self.progress != self._progress_mark and self._extensions < 12:
+                # a busy-wait loop (xonsh's foreground wait spins) burns steps while the work it waits for goes on
+                self._progress_mark = self.progress
+                self._extensions += 1
+                self.max_steps += self._step_quantum
+            else:
+                self.abort("hang", f"step budget {self.max_steps} exceeded ({self._extensions} extensions, no I/O or thread progress during the last {self._step_quantum} decisions)")
         if self.now > self.max_time:
             self.abort("hang", f"simulated time budget {self.max_time}s exceeded")
 
@@ -208,11 +222,12 @@ class Kernel:
         default = self._default(me, cands)
         if forced:
             # fairness rule (both modes, not on the tape): round-robin successor of me
+            # the LEAST RECENTLY RUN other runnable thread: a thread that wakes up periodically (timed queue get,
+            # polling loop) must not keep the threads behind it from ever running, as plain "next tid" would
             others = [r for r in cands if r is not me]
             if not others:
                 return default
-            later = [r for r in others if me is not None and r.tid > me.tid]
-            return later[0] if later else others[0]
+            return min(others, key=lambda r: (r.last_run, r.tid))
         if self.replay:
             tid = self.tape_in.get(self.d)
             if tid is not None:
@@ -274,6 +289,7 @@ class Kernel:
         self.run_len = 0
         self.switches += 1
         self.note(f"{why}:{me.tid if me else -1}>{nxt.tid}")
+        nxt.last_run = self.d
         self.cur = nxt
         nxt.baton.release()
         if me is not None and not me.done:
@@ -378,6 +394,7 @@ class Kernel:
                 pass
             finally:
                 r.done = True
+                k.progress += 1
                 if k.active:
                     try:
                         k._advance()
@@ -435,6 +452,7 @@ def _t_start(self):
                 pass
         finally:
             r.done = True
+            k.progress += 1
             if k.active:
                 try:
                     k._advance()
